@@ -16,7 +16,7 @@ CLAIMED = {
  "C04": ("Lean 4 invariant over the Reader control model for every bufio size / source chunking / read sizes (decoder fed the stream in order, nothing lost or duplicated) + lock-step correspondence + schedule-pair oracle",
          "Proof (partial by nature of the claim): C04_decoder_sees_the_stream, C04_same_stream_same_feed, C04_nothing_left_behind are kernel-checked by induction over Read calls for an arbitrary Sane decoder; that the decoder's output is a function of the fed stream is its contract, validated by the oracle (all-at-once vs scheduled runs over valid and cut streams, boundary families, one byte per read). For TRUNCATED streams the code violates the property by 1-2 trailing bytes: known finding F-C04-1.",
          RT, "DESIGN.md section 6 C04"),
- "C05": ("Lean 4 accounting invariant of the Reader control model (discarded + whole bytes in the bit buffer = bytes taken by the decoder) => exact consumption at io.EOF + lock-step correspondence + suffix-intact oracle",
+ "C05": ("Lean 4 accounting invariant of the Reader control model (discarded + whole bytes in the bit buffer = bytes taken by the decoder) => exact consumption at io.EOF + lock-step correspondence R + session check F (source position after io.EOF = end of the byte holding the last bit of the final block, computed by the Lean specification inflater) + suffix-intact oracle",
          "Proof: C05_invariant (every reachable state), C05_exact, C05_position_after_eof (taken = ceil(endBit/8), the unread stream is exactly the suffix) are kernel-checked for every bufio size, chunking and read pattern; tie: R correspondence compares the bytes consumed from the bufio.Reader in lock-step; oracle: stream+suffix over bufio sizes 16..64K, NewReader and Reset, flate/gzip/zlib. Non-bufio ByteReaders are over-read by the library: known finding F-C05-1.",
          RT, "DESIGN.md section 6 C05"),
  "C06": ("Lean 4 round-trip theorems for the gzip and zlib header/trailer formats (parse (emit h) = h for every representable header; trailer = checksum of the concatenated writes) + byte-level correspondence + both-direction interop oracle",
@@ -53,28 +53,28 @@ CLAIMED = {
          "Proof (partial by nature): C17_product_noninterference (any two state machines, any interleaving) and C17_no_shared_mutable_state (decide over facts regenerated from /repo on every run: a new mutable global, a sync.Pool, a write to a table outside init breaks it); the Go memory model and the assembly are not modelled: data-race freedom is corroborated by running the same workloads concurrently (GOMAXPROCS 1..16, skewed writers, pooled-reader recycling) and in a -race build.",
          "Trusted: Lean kernel; the fact extractor (/verif/extract, go/ast); the race detector and scheduler for the corroborating runs.", "DESIGN.md section 6 C17"),
  "C18": ("Lean 4: level-free models + fact theorems over regenerated dispatch sites and struct layouts vs assembly displacements + per-level processes compared pairwise and with the reference inflater",
-         "Proof: the Reader and container models take no level parameter and the Writer theorems hold for all leaves; C18_dispatch_shape and C18_layout_ok are decided over facts regenerated from /repo (every cpu.ArchLevel site, gc/amd64 offsets of inflate / BitBuf / histogram against the displacements in the .s files); the per-level leaf contracts are assumptions validated on every run: each Reader case runs in separate processes at every level the host can execute, outcomes compared pairwise and with the reference inflater; R and W correspondences run at level 0.",
+         "Proof: the Reader and container models take no level parameter and the Writer theorems hold for all leaves; C18_dispatch_shape and C18_layout_ok are decided over facts regenerated from /repo (every cpu.ArchLevel site, gc/amd64 offsets of inflate / BitBuf / histogram against the displacements in the .s files); the per-level leaf contracts are assumptions validated on every run: each Reader case runs in separate processes at every level the host can execute, outcomes compared pairwise and with the reference inflater; R and W correspondences run at level 0; the leaf-contract checks G (match finders), E (block encoders) and F (decoder sessions) run at every level.",
          "Trusted: Lean kernel; extractor; assembly behind per-level validated contracts; levels above the host's capability are skipped and reported.", "DESIGN.md section 6 C18"),
 }
 
 LT = " Leaf contracts are explicit hypotheses of the theorems, shown satisfiable by complete executable instances (fixLeaves/fixSound: literal tokens + fixed-Huffman blocks; batchDecoder/batchFaithful) and checked on the real code per run, not proved for it."
 CLAIMED.update({
- "C01": ("Lean 4 stream-composition proof: invariant over the Writer control model (any data, any Write/Flush/Reset history, buffer roll-overs, window slides, early-stopping match finder) => after Close the destination holds exactly one complete stream that the specification inflater decodes to the data; leaf contracts Sound (match finder, block encoder); correspondences I (spec inflater vs compress/flate), W and H (dynamic and Huffman-only control models in lock-step), G (every recorded match-finder call, Go and assembly, passes the proved-sound check checkGen) + three-decoder round-trip oracle at every acceleration level",
-         "Proof (partial): C01_roundtrip_dyn, C01_empty (dynamic compressor: levels 1, 2, default; both windows) and C01_roundtrip_huff (Huffman-only, level -2) are kernel-checked for ALL inputs and call patterns under the leaf contracts Sound / HSound; the contracts are shown satisfiable (fixSound) and checked on the implementation: G correspondence checks each recorded match-finder call against checkGen (checkGen_sound: tokens replayed as an inflater would reproduce the consumed bytes) at every level, the oracle decodes every emitted stream with compress/flate, the reference inflater and fastgo's Reader. Not covered by the theorems, oracle only: delegated levels 0/3-9, preset dictionaries (known finding F-C01-1), the block encoders' contracts (Huffman code generation, header, bit packing).",
+ "C01": ("Lean 4 stream-composition proof: invariant over the Writer control model (any data, any Write/Flush/Reset history, buffer roll-overs, window slides, early-stopping match finder) => after Close the destination holds exactly one complete stream that the specification inflater decodes to the data; leaf contracts Sound (match finder, block encoder); correspondences I (spec inflater vs compress/flate), W and H (dynamic and Huffman-only control models in lock-step), G (every recorded match-finder call, Go and assembly, passes the proved-sound check checkGen), E (every block the real block encoders emit passes checkEnc, which the frame theorem of the specification inflater proves to give the enc clause of the contract) + three-decoder round-trip oracle at every acceleration level",
+         "Proof (partial): C01_roundtrip_dyn, C01_empty (dynamic compressor: levels 1, 2, default; both windows) and C01_roundtrip_huff (Huffman-only, level -2) are kernel-checked for ALL inputs and call patterns under the leaf contracts Sound / HSound; the contracts are shown satisfiable (fixSound) and checked on the implementation: G correspondence checks each recorded match-finder call against checkGen (checkGen_sound: tokens replayed as an inflater would reproduce the consumed bytes) at every level, E correspondence hands every block the real encoders emit (Huffman code generation, dynamic header, token / byte packing in Go, AVX2, AVX-512, bit buffer; dynamic and Huffman-only compressor) to checkEnc: the specification inflater run on exactly that block's bits + decidable prefix-freeness of its codes; C01_block_frame (the specification inflater is prefix-stable), C01_block_history_local and C01_checked_block_meets_contract prove that a passed check gives the enc clause of Sound / HSound for that call; the oracle decodes every emitted stream with compress/flate, the reference inflater and fastgo's Reader. Not covered by the theorems, oracle only: delegated levels 0/3-9, preset dictionaries (known finding F-C01-1). The leaf algorithms themselves have no Lean model: their contracts are checked call by call with proved checks, for the calls the generators reach.",
          WT + LT, "DESIGN.md section 6 C01"),
- "C02": ("Lean 4 delivery theorem over the Reader control model: for any bufio size, source chunking and sequence of Read sizes the bytes handed out are, in order and without loss or duplication, a prefix of the specification inflater's output for the bytes the decoder took, and io.EOF means exactly the complete output; decoder leaf contracts Sane + Faithful; correspondences I and R + differential oracle against compress/flate over synthesised code shapes at every level",
-         "Proof (partial): C02_delivery, C02_eof_complete(_from_start) are kernel-checked by induction over Read calls for an arbitrary decoder meeting Sane and Faithful (relative to Spec.inflate, tied to compress/flate by I); batchDecoder shows the contracts satisfiable and runs the Reader model on real DEFLATE bytes inside Lean. That the real decoder (tables, Go and AVX2 loops) is Faithful and makes progress on every valid stream is NOT proved: oracle (every block type / code shape family, all read-size schedules) and R correspondence.",
+ "C02": ("Lean 4 delivery theorem over the Reader control model: for any bufio size, source chunking and sequence of Read sizes the bytes handed out are, in order and without loss or duplication, a prefix of the specification inflater's output for the bytes the decoder took, and io.EOF means exactly the complete output; decoder leaf contracts Sane + Faithful; correspondences I, R and F (complete sessions of the real Reader at every level judged by the Lean specification inflater itself through the check checkFaithful, whose meaning is proved) + differential oracle against compress/flate over synthesised code shapes at every level",
+         "Proof (partial): C02_delivery, C02_eof_complete(_from_start) are kernel-checked by induction over Read calls for an arbitrary decoder meeting Sane and Faithful (relative to Spec.inflate, tied to compress/flate by I); batchDecoder shows the contracts satisfiable and runs the Reader model on real DEFLATE bytes inside Lean. That the real decoder (tables, Go and AVX2 loops) is Faithful and makes progress on every valid stream is NOT proved: it is checked session by session (F: delivered bytes = the specification's output, io.EOF, source position), by the oracle (every block type / code shape family, all read-size schedules) and the R correspondence.",
          RT + LT, "DESIGN.md section 6 C02"),
- "C03": ("Lean 4 theorems over the Reader control model: no fabricated byte (also after Reset), io.EOF only after a complete stream, error kinds determined by the decoder's verdict and the source's EOF, errors sticky; decoder contracts Sane + Faithful; I and R correspondences + fault-injection oracle bounded by the permissive reference inflater (upper) and compress/flate (lower)",
+ "C03": ("Lean 4 theorems over the Reader control model: no fabricated byte (also after Reset), io.EOF only after a complete stream, error kinds determined by the decoder's verdict and the source's EOF, errors sticky; decoder contracts Sane + Faithful; I, R and F correspondences (F: real sessions on valid, faulty, cut, flipped input judged by the Lean specification inflater: C03_checked_session_no_fabrication / _eof / _corrupt) + fault-injection oracle bounded by the permissive reference inflater (upper) and compress/flate (lower)",
          "Proof (partial): C03_no_fabrication, C03_reset_forgets, C03_eof_only_if_complete, C03_error_kinds, C03_sticky are kernel-checked for all inputs/histories under the decoder contracts. Not proved: absence of panics/hangs in the decoder proper and its Faithfulness on malformed input (stale tables, unassigned codes): oracle with 17 fault kinds, truncation at every byte, reuse after other streams, recovered panics + watchdog, at every level.",
          RT + LT, "DESIGN.md section 6 C03"),
- "C10": ("Lean 4 stream-composition proof: after every successful Flush the destination holds a chain of complete non-final blocks (ending with the empty stored block, byte aligned, nothing in the bit carry) that the specification inflater decodes to all data so far and then asks for more at a block boundary; the invariant continues to hold for later Write/Flush/Close; dynamic and Huffman-only compressors, and the gzip/zlib Writer models on top of them; correspondences I, W, H, ZW, GW, G + flush-prefix oracle with compress/flate and the reference inflater",
+ "C10": ("Lean 4 stream-composition proof: after every successful Flush the destination holds a chain of complete non-final blocks (ending with the empty stored block, byte aligned, nothing in the bit carry) that the specification inflater decodes to all data so far and then asks for more at a block boundary; the invariant continues to hold for later Write/Flush/Close; dynamic and Huffman-only compressors, and the gzip/zlib Writer models on top of them; correspondences I, W, H, ZW, GW, G, E + flush-prefix oracle with compress/flate and the reference inflater",
          "Proof (partial): C10_flush_point, C10_stream_stays_valid (dynamic compressor) and C10_flush_point_huff (Huffman-only) and C10_flush_point_zlib / C10_flush_point_gzip (container Writer models over any inner Writer meeting the stream contract; dynStream / huffStream prove the two flate Writer models meet it) are kernel-checked for ALL data and Write/Flush/Reset histories under the leaf contracts Sound / HSound (as C01). Oracle only: delegated levels, dictionaries, Latin-1/time conversions.",
          WT + LT, "DESIGN.md section 6 C10"),
  "C19": ("Lean 4: uint32/uint16 arithmetic of the window test (accepts exactly 1..window), distance-symbol table round trip over all 32768 distances (decide +kernel), regenerated facts on the code shape and constructor windows, and checkGen_sound: a recorded match-finder call that passes the executable check only emitted matches within the window; G correspondence applies that check to Go AND assembly match finders at every level; traced-inflater oracle on window-edge families",
          "Proof (partial): C19_accept_bounds, C19_reject_outside, C19_emitted_distance, C19_window, C19_checked_call are kernel-checked; C19_code_shape / C19_constructor_windows are decided over facts regenerated from /repo on every run. The assembly match finders have no Lean model: every recorded call is checked (G) and the maximum distance of every output is measured by the reference inflater at each level.",
          WT + " The fact extractor (/verif/extract) is trusted for the code-shape facts.", "DESIGN.md section 6 C19"),
- "C20": ("Lean 4 accounting theorem over the Writer control model (output = the blocks' bits + <8 padding bits, blocks partition the data) + measured bounds: the two numeric bounds are NOT proved, they are measured by the oracle on adversarial distributions and all periods 1..64 at every acceleration level",
+ "C20": ("Lean 4 accounting theorem over the Writer control model (output = the blocks' bits + <8 padding bits, blocks partition the data; correspondences W, H, G, E) + measured bounds: the two numeric bounds are NOT proved, they are measured by the oracle on adversarial distributions and all periods 1..64 at every acceleration level",
          "Proof (partial, weakest claim of the set): C20_no_hidden_overhead is kernel-checked for all inputs and Write splits; the numeric bounds n + n/32 + 256 and n/32 + 1200 depend on the quality of the Huffman code generator, header coder and hash table, which are not modelled; they are decided by measurement only (oracle: uniform / near-uniform / Fibonacci-skewed / exact-count dominant-symbol inputs for expansion; every period 1..64, sizes 64 KiB..1 MiB for effectiveness).",
          WT + LT, "DESIGN.md section 6 C20"),
 })
